@@ -130,7 +130,14 @@ def _sibling_network(r, rec):
     if not sib["branches"]:
         return None
     b = r.choice(sib["branches"])
-    how = r.choice(["value", "value", "swap_nodes", "order", "relabel", "relabel", "kind_swap"])
+    how = r.choice(["value", "value", "swap_nodes", "order", "relabel", "relabel", "kind_swap", "zero", "zero"])
+    if how == "zero":
+        # the same branches on another reference node
+        labels = [x for x in G.network_nodes(sib) if x != sib.get("zero", "0")]
+        if labels:
+            sib["zero"] = r.choice(labels)
+            return sib
+        how = "value"
     if how == "relabel":
         # the same ids and topology on another set of node labels
         labels = G.network_nodes(sib)
@@ -196,7 +203,14 @@ def _sibling_circuit(r, rec):
     cands = [c for c in sib["components"] if c.get("args")]
     if not cands:
         return None
-    c = r.choice(cands)
+    per = [c for c in cands if c["ctor"].startswith("periodic_")]
+    if per and r.random() < 0.7:
+        c = r.choice(per)
+        if r.random() < 0.5:
+            c["args"]["wavetype"] = r.choice([w for w in ["rect", "tri", "saw", "cos", "sin"] if w != c["args"]["wavetype"]])
+            return sib
+    else:
+        c = r.choice(cands)
     keys = [k for k, v in c["args"].items() if isinstance(v, (int, float)) and not isinstance(v, bool)]
     if not keys:
         c["nodes"] = list(reversed(c["nodes"]))
@@ -273,6 +287,13 @@ def _script(r, client, world, counter):
                 if explicit:
                     a["keep"] = P(net + "_keep")
             h = add("net.xform", a)
+            if f == "switch_ground_node" and r.random() < 0.7:
+                # the same branches on two reference nodes, both solved and queried (either order)
+                first, second = (P(net), h) if r.random() < 0.5 else (h, P(net))
+                s1 = add("net.solve", {"net": first})
+                s2 = add("net.solve", {"net": second})
+                add("nsol.all", {"sol": s2})
+                add("nsol.all", {"sol": s1})
             # explicit-shared call before, default call after (and the other way round by interleaving)
             if "keep" in a and r.random() < 0.7:
                 add("net.xform", {"net": P(net), "f": f})
@@ -382,6 +403,14 @@ def _script(r, client, world, counter):
             elif k == "pool_tf":
                 fn = add("sig.tf", {"pf": P("pf0")})
                 add("fn.eval", {"fn": fn, "t": P("tgrid")})
+            elif k == "new_pf" and r.random() < 0.5:
+                args = enc({"period": r.choice([1.0, 0.02]), "amplitude": r.choice(G.V_VALUES), "phase": r.choice(G.PHI_VALUES)})
+                w1, w2 = r.sample(["rect", "tri", "saw", "cos", "sin"], 2)
+                h1 = add("sig.pf", {"wave": w1, "args": args})
+                h2 = add("sig.pf", {"wave": w2, "args": args})
+                add("sig.fs", {"pf": h1, "ns": [0, 1, 2, 3, 5]})
+                add("sig.fs", {"pf": h2, "ns": [0, 1, 2, 3, 5]})
+                add("sig.fs", {"pf": h1, "ns": [1, 3]})
             elif k == "new_pf":
                 h = add("sig.pf", {"wave": "__nope__" if bad else r.choice(["rect", "tri", "saw", "cos", "sin"]),
                                    "args": enc({"period": r.choice([1.0, 0.02]), "amplitude": r.choice(G.V_VALUES), "phase": r.choice(G.PHI_VALUES)})})
